@@ -3,6 +3,7 @@ package codec
 import (
 	"errors"
 	"fmt"
+	"time"
 	"reflect"
 	"sort"
 	"strings"
@@ -138,8 +139,24 @@ func readerFor(f Fmt, data []byte, excl []string, ignore int) (restlicodec.Reade
 }
 
 // Decode unmarshals data as a value of type t with the real bindings and returns the canonical
-// outcome line.
+// outcome line; a decode that does not return within the watchdog period is reported as `hang`
+// (retried once, in isolation, before it counts).
 func (b *Bridge) Decode(f Fmt, t Ty, data []byte, excl []string, ignore int) string {
+	for attempt := 0; ; attempt++ {
+		ch := make(chan string, 1)
+		go func() { ch <- b.decode1(f, t, data, excl, ignore) }()
+		select {
+		case out := <-ch:
+			return out
+		case <-time.After(4 * time.Second):
+			if attempt == 1 {
+				return "hang"
+			}
+		}
+	}
+}
+
+func (b *Bridge) decode1(f Fmt, t Ty, data []byte, excl []string, ignore int) string {
 	var outcome string
 	panicked, pv := hx.Recover(func() {
 		r, err := readerFor(f, data, excl, ignore)
